@@ -40,15 +40,24 @@ def fn_callable(fn):
 
 
 # ---- polyline utilities -------------------------------------------------------------------------------
-def polyline_project(pts, cum, p):
-    """exact projection of p on the polyline: (arc coordinate, distance)"""
+def polyline_project(pts, cum, p, lo=None, hi=None):
+    """exact projection of p on the polyline (restricted to arc coordinates [lo, hi] when given):
+    (arc coordinate, distance)"""
     a, b = pts[:-1], pts[1:]
     ab = b - a
     den = np.sum(ab * ab, axis=1)
     den = np.where(den == 0, 1.0, den)
     u = np.clip(np.sum((p - a) * ab, axis=1) / den, 0.0, 1.0)
+    if lo is not None:
+        seg = cum[1:] - cum[:-1]
+        safe = np.where(seg == 0, 1.0, seg)
+        u = np.clip(u, np.clip((lo - cum[:-1]) / safe, 0.0, 1.0), np.clip((hi - cum[:-1]) / safe, 0.0, 1.0))
+        # segments entirely outside [lo, hi] collapse onto their end nearest to the range: still a point of the range
     proj = a + ab * u[:, None]
     d = np.linalg.norm(proj - p, axis=1)
+    if lo is not None:
+        s_all = cum[:-1] + u * (cum[1:] - cum[:-1])
+        d = np.where((s_all < lo - 1e-12 * (1 + abs(lo))) | (s_all > hi + 1e-12 * (1 + abs(hi))), np.inf, d)
     k = int(np.argmin(d))
     return float(cum[k] + u[k] * (cum[k + 1] - cum[k])), float(d[k])
 
@@ -143,55 +152,107 @@ class Ref:
         return geom.polyline_length(self.P(ts))
 
     # -- projection of a point on the reference ---------------------------------------------------
-    def project(self, p):
-        """-> (monotone coordinate along the curve, distance). The coordinate is the arc length for polylines
-        and the parameter otherwise."""
+    def project(self, p, lo=None, hi=None):
+        """-> (monotone coordinate along the curve, distance), optionally restricted to coordinates [lo, hi].
+        The coordinate is the arc length for polylines and the parameter otherwise."""
         p = np.asarray(p, dtype=float)
         k = self.kind
         if k in ("discrete", "linear"):
-            return polyline_project(self.pts, self.cum, p)
+            return polyline_project(self.pts, self.cum, p, lo, hi)
+        if lo is None:
+            lo, hi = self.lo, self.hi
         if k == "line":
             v = self.p2 - self.p1
             t = float(np.dot(p - self.p1, v) / np.dot(v, v))
-            t = min(max(t, self.lo), self.hi)
+            t = min(max(t, lo), hi)
             return t, float(np.linalg.norm(self.p1 + v * t - p))
-        d = np.linalg.norm(self.dense - p, axis=1)
-        i = int(np.argmin(d))
-        a, b = self.ts[max(i - 1, 0)], self.ts[min(i + 1, len(self.ts) - 1)]
-        t, dist = _golden(lambda t: float(np.linalg.norm(self.point(t) - p)), a, b)
-        if d[i] < dist:
-            return float(self.ts[i]), float(d[i])
-        return t, dist
+        sel = np.nonzero((self.ts >= lo) & (self.ts <= hi))[0]
+        cand = [lo, hi]
+        if len(sel):
+            d = np.linalg.norm(self.dense[sel] - p, axis=1)
+            i = int(sel[int(np.argmin(d))])
+            a, b = max(self.ts[max(i - 1, 0)], lo), min(self.ts[min(i + 1, len(self.ts) - 1)], hi)
+            cand.append(float(self.ts[i]))
+        else:
+            a, b = lo, hi
+        fun = lambda t: float(np.linalg.norm(self.point(t) - p))  # noqa: E731
+        t, dist = _golden(fun, a, b)
+        for c in cand:
+            dc = fun(c)
+            if dc < dist:
+                t, dist = c, dc
+        return float(t), float(dist)
 
-    def coord(self, t):
-        """the monotone coordinate used by project() of the curve point with parameter t"""
+    def coord(self, t, p=None):
+        """the monotone coordinate used by project() of the curve point with parameter t. For the linear-interpolated
+        curve this is the arc coordinate of the point p (the REAL curve's point for t) on the polyline, looked for
+        near the documented position so that the two ends of a closed loop are told apart."""
         if self.kind == "discrete":
             return float(self.cum[int(t)])
         if self.kind == "linear":
-            return polyline_project(self.pts, self.cum, self.point(t))[0]
+            doc = float(np.interp(t, self.knots, self.cum))
+            if p is None:
+                return doc
+            p = np.asarray(p, dtype=float)
+            s, d = polyline_project(self.pts, self.cum, p, max(0.0, doc - 0.02 * self.L), min(self.L, doc + 0.02 * self.L))
+            if d <= 1e-9 * (self.size + float(np.abs(self.pts).max())):
+                return s
+            return polyline_project(self.pts, self.cum, p)[0]
         return float(t)
 
     # -- the distance profile of a query --------------------------------------------------------
     def profile(self, q):
-        """dense distance profile: (d*, resolvable width).  With i* the dense arg-min, B* the maximal index interval
-        around i* on which the distance decreases monotonically towards i*, and m the smallest distance outside
-        B*, the width is the fraction of the parameter range on which (inside B*) the distance is below m.
-        Any coarse search with a finer parameter spacing than the width, followed by a descent that never accepts a
-        worse point, must end at the global minimum (see ASSUMPTIONS of c16)."""
-        d = np.linalg.norm(self.dense - np.asarray(q, dtype=float), axis=1)
+        """distance profile of a query: (d*, resolvable width, parameter of the dense arg-min).
+        d* is the smallest distance of the N_DENSE samples. m is the value of the second-best local minimum of the
+        distance along the curve: found on the samples for smooth curves (walk from the arg-min while the distance
+        keeps growing: everything beyond belongs to other basins), enumerated exactly for polylines (one foot of a
+        perpendicular per segment, convex vertices: a polyline seen from its concave side has two minima next to
+        each vertex that no sampling resolves). The width is the fraction of the parameter range covered by the
+        run of samples around the arg-min that are closer than m. A coarse search with a finer parameter spacing
+        than the width followed by a descent that never accepts a worse point must end at the global minimum."""
+        q = np.asarray(q, dtype=float)
+        d = np.linalg.norm(self.dense - q, axis=1)
         n = len(d)
         i = int(np.argmin(d))
-        il = i
-        while il > 0 and d[il - 1] >= d[il]:
-            il -= 1
-        ir = i
-        while ir < n - 1 and d[ir + 1] >= d[ir]:
-            ir += 1
-        outside = np.concatenate((d[:il], d[ir + 1:]))
-        m = float(outside.min()) if len(outside) else math.inf
-        inside = d[il: ir + 1]
-        width = float(np.count_nonzero(inside < m)) / n
-        return float(d[i]), width, float(self.ts[i])
+        if self.kind == "linear":
+            vals = sorted(self._polyline_minima(q))
+            m = vals[1] if len(vals) > 1 else math.inf
+        else:
+            il = i
+            while il > 0 and d[il - 1] >= d[il]:
+                il -= 1
+            ir = i
+            while ir < n - 1 and d[ir + 1] >= d[ir]:
+                ir += 1
+            outside = np.concatenate((d[:il], d[ir + 1:]))
+            m = float(outside.min()) if len(outside) else math.inf
+        if not d[i] < m:
+            return float(d[i]), 0.0, float(self.ts[i])
+        lo = i
+        while lo > 0 and d[lo - 1] < m:
+            lo -= 1
+        hi = i
+        while hi < n - 1 and d[hi + 1] < m:
+            hi += 1
+        return float(d[i]), float(hi - lo + 1) / n, float(self.ts[i])
+
+    def _polyline_minima(self, q):
+        """values of all local minima of the distance from q along the polyline (exact)"""
+        a, b = self.pts[:-1], self.pts[1:]
+        ab = b - a
+        den = np.sum(ab * ab, axis=1)
+        den = np.where(den == 0, 1.0, den)
+        raw = np.sum((q - a) * ab, axis=1) / den
+        u = np.clip(raw, 0.0, 1.0)
+        dist = np.linalg.norm(a + ab * u[:, None] - q, axis=1)
+        nseg = len(a)
+        vals = [float(dist[k]) for k in range(nseg) if 0.0 < raw[k] < 1.0]
+        for v in range(nseg + 1):  # vertices: a minimum when the distance grows along both adjacent segments
+            left_ok = v == 0 or raw[v - 1] >= 1.0
+            right_ok = v == nseg or raw[v] <= 0.0
+            if left_ok and right_ok:
+                vals.append(float(np.linalg.norm(self.pts[v] - q)))
+        return vals
 
 
 def _golden(fun, a, b, iters=70):
@@ -262,7 +323,7 @@ def gen_points(rng):
 
 def gen_curve(rng, kind=None):
     if kind is None:
-        kind = rng.choices(["discrete", "linear", "spline", "analytic", "line", "circle"], [0.14, 0.22, 0.26, 0.14, 0.08, 0.16])[0]
+        kind = rng.choices(["discrete", "linear", "spline", "analytic", "line", "circle"], [0.16, 0.24, 0.28, 0.12, 0.08, 0.12])[0]
     if kind in POINT_KINDS:
         pts, family = gen_points(rng)
         spec = {"kind": kind, "points": pts, "family": family}
